@@ -1,6 +1,6 @@
 (* C08: the two instances of NumOps, and the executable "run one case" wrapper that the
    correspondence check evaluates with vm_compute.  No proofs in this file. *)
-From Coq Require Import ZArith List Reals Floats.
+From Coq Require Import ZArith List Reals Uint63 Floats.
 From LibaV Require Import C08.NumOps C08.FactorDefs.
 Import ListNotations.
 
@@ -17,28 +17,39 @@ Definition R_ops (tiny : R) : NumOps R := {|
 |}.
 
 (* ------------------------------------------------------------- binary64 *)
-(* Bit pattern <-> primitive float, through the stdlib's SpecFloat view (Prim2SF/SF2Prim).
-   NaNs are canonicalised to 0x7ff8000000000000 (the C driver does the same). *)
-Local Open Scope Z_scope.
+(* A double travels as two 32-bit halves (hi, lo) of its bit pattern, held in primitive 63-bit
+   integers.  Decoding/encoding uses only the primitive operations ldshiftexp / frshiftexp /
+   normfr_mantissa (exact scalings by powers of two), so it is exact; it is validated on every
+   run by the round trip through the C driver (inputs are echoed inside the outputs) and against
+   Python's struct encoding.  NaNs are canonicalised to 0x7ff8000000000000 (the C driver does
+   the same). *)
+Local Open Scope uint63_scope.
 
-Definition bits_of_f64 (f : float) : Z :=
-  match Prim2SF f with
-  | S754_zero s => if s then 2 ^ 63 else 0
-  | S754_infinity s => (if s then 2 ^ 63 else 0) + 0x7ff0000000000000
-  | S754_nan => 0x7ff8000000000000
-  | S754_finite s m e =>
-      (if s then 2 ^ 63 else 0) +
-      (if Z.pos m <? 2 ^ 52 then Z.pos m else (e + 1075) * 2 ^ 52 + (Z.pos m - 2 ^ 52))
-  end.
+Definition f64_of_parts (hi lo : int) : float :=
+  let s := hi >> 31 in
+  let E := (hi >> 20) land 0x7ff in
+  let m := ((hi land 0xfffff) << 32) lor lo in
+  let v := if E =? 2047 then (if m =? 0 then PrimFloat.infinity else PrimFloat.nan)
+           else if E =? 0 then PrimFloat.ldshiftexp (PrimFloat.of_uint63 m) (2101 - 1074)
+           else PrimFloat.ldshiftexp (PrimFloat.of_uint63 (m lor 0x10000000000000)) (E + 2101 - 1075) in
+  if s =? 1 then PrimFloat.opp v else v.
 
-Definition f64_of_bits (z : Z) : float :=
-  let s := 2 ^ 63 <=? z in
-  let a := z mod 2 ^ 63 in
-  let E := a / 2 ^ 52 in
-  let m := a mod 2 ^ 52 in
-  SF2Prim (if E =? 2047 then (if m =? 0 then S754_infinity s else S754_nan)
-           else if E =? 0 then match m with Zpos p => S754_finite s p (-1074) | _ => S754_zero s end
-           else match m + 2 ^ 52 with Zpos p => S754_finite s p (E - 1075) | _ => S754_nan end).
+(* low 63 bits of the pattern of a non-NaN float, and its sign *)
+Definition parts_of_f64 (f : float) : int * int :=
+  if PrimFloat.is_nan f then (0x7ff80000, 0)
+  else
+    let s := if PrimFloat.get_sign f then 1 else 0 in
+    let a := PrimFloat.abs f in
+    let body :=
+      if PrimFloat.is_infinity a then 0x7ff0000000000000
+      else if PrimFloat.is_zero a then 0
+      else
+        let (m, e) := PrimFloat.frshiftexp a in          (* a = m * 2^(e - shift), 1/2 <= m < 1 *)
+        let mant := PrimFloat.normfr_mantissa m in        (* m * 2^53 *)
+        if 2101 - 1021 <=? e
+        then ((e - (2101 - 1022)) << 52) + (mant - 0x10000000000000)
+        else mant >> (2101 - 1021 - e) in
+    ((s << 31) lor (body >> 32), body land 0xffffffff).
 
 Definition f64_ofZ (z : Z) : float :=
   match z with
@@ -50,44 +61,47 @@ Definition f64_ofZ (z : Z) : float :=
 (* libm log is not computed in Coq: the C run logs (argument, result) of every call to log
    (linker --wrap=log) and the model looks the argument up in that table; an argument that
    the C code never passed to log yields NaN, which makes the comparison fail. *)
-Fixpoint log_lookup (tbl : list (Z * Z)) (x : Z) : float :=
+Definition f64pair : Type := (int * int)%type.
+Fixpoint log_lookup (tbl : list (f64pair * f64pair)) (x : f64pair) : float :=
   match tbl with
   | [] => PrimFloat.nan
-  | (a, r) :: t => if a =? x then f64_of_bits r else log_lookup t x
+  | (a, r) :: t => if andb (fst a =? fst x) (snd a =? snd x) then f64_of_parts (fst r) (snd r) else log_lookup t x
   end.
 
-Definition F64_ops (logtbl : list (Z * Z)) : NumOps float := {|
+Definition F64_ops (logtbl : list (f64pair * f64pair)) : NumOps float := {|
   zero := PrimFloat.zero; one := PrimFloat.one;
   add := PrimFloat.add; sub := PrimFloat.sub; mul := PrimFloat.mul; div := PrimFloat.div;
   abs := PrimFloat.abs; sqrt := PrimFloat.sqrt;
-  ln := fun x => log_lookup logtbl (bits_of_f64 x);
+  ln := fun x => log_lookup logtbl (parts_of_f64 x);
   ltb := PrimFloat.ltb; eqb := PrimFloat.eqb;
   ofZ := f64_ofZ;
-  tiny := f64_of_bits 0x0010000000000000          (* DBL_MIN = 0x1p-1022 *)
+  tiny := f64_of_parts 0x00100000 0          (* DBL_MIN = 0x1p-1022 *)
 |}.
 
 (* --------------------------------------------------------- canonical output *)
 (* One output line = (opcode, items); items are integers, doubles (as bit patterns) or the
    error mark (the model went out of bounds).  tools side prints them exactly like the C driver. *)
-Inductive item : Type := I (z : Z) | F (bits : Z) | E.
+Local Open Scope Z_scope.
+Inductive item : Type := I (z : Z) | F (hi lo : int) | E.
 
-Definition fl (l : list float) : list item := map (fun x => F (bits_of_f64 x)) l.
+Definition fitem (x : float) : item := let (h, l) := parts_of_f64 x in F h l.
+Definition fl (l : list float) : list item := map fitem l.
 Definition nl (l : list nat) : list item := map (fun x => I (Z.of_nat x)) l.
 Definition ofl (o : option (list float)) : list item := match o with Some l => fl l | None => [E] end.
-Definition of1 (o : option float) : list item := match o with Some x => [F (bits_of_f64 x)] | None => [E] end.
+Definition of1 (o : option float) : list item := match o with Some x => [fitem x] | None => [E] end.
 Definition oz1 (o : option Z) : list item := match o with Some x => [I x] | None => [E] end.
 Definition ofl2 (o : option (list float * list float)) : list item :=
   match o with Some (a, b) => fl a ++ fl b | None => [E] end.
 
-Definition junk : float := f64_of_bits 0xC01C000000000000.   (* -7.0: initial content of output buffers *)
+Definition junk : float := f64_of_parts 0xC01C0000%uint63 0%uint63.   (* -7.0: initial content of output buffers *)
 
 (* The sequence of calls the C driver (harness/C08/drv.c) makes for one case, in the same
    order, on the same buffers.  mask: 1 = PLU, 2 = LDL, 4 = LLT. *)
-Definition run_case (mask : Z) (n : nat) (Abits bbits : list Z) (logtbl : list (Z * Z))
+Definition run_case (mask : Z) (n : nat) (Abits bbits : list f64pair) (logtbl : list (f64pair * f64pair))
   : list (Z * list item) :=
   let O := F64_ops logtbl in
-  let A := map f64_of_bits Abits in
-  let b := map f64_of_bits bbits in
+  let A := map (fun q => f64_of_parts (fst q) (snd q)) Abits in
+  let b := map (fun q => f64_of_parts (fst q) (snd q)) bbits in
   let mat := repeat junk (n * n) in
   let vec := repeat junk n in
   (if Z.testbit mask 0 then
